@@ -1,7 +1,12 @@
 import Hannibal.Monitor.Basic
 /-
   C03 — lifecycle callbacks follow started / handle* / stopped.
-  A regular-language check over one actor's callback events.
+
+  `monC03`  : a regular-language check over one actor's callback events (order, exactly-once,
+              nothing after the end, nothing after a failure, `finished` before `stopped` for
+              stream-attached actors, restart = `stopped` then `started`).
+  `monC03q` : the graceful-end clause: after an accepted stop request and absent failures the
+              actor has ended (with `stopped` called) by the time nothing can move any more.
 -/
 namespace Hannibal
 
@@ -10,58 +15,59 @@ inductive L3 where
   | inFinished | afterFinished | failed | ended
   deriving DecidableEq, Repr, Inhabited
 
-structure C03St where
-  ph : L3
-  graceful : Bool        -- a graceful cause occurred (accepted stop request)
-  sawFailure : Bool
-  deriving Repr, DecidableEq
-
-def monC03 (c : MonCtx) : Mon C03St where
-  init := { ph := .fresh, graceful := false, sawFailure := false }
-  step st l :=
+def monC03 (c : MonCtx) : Mon L3 where
+  init := .fresh
+  step ph l :=
     let restartable := !c.cfg.stream && c.cfg.strat != .non
     match l with
     | .cbBegin .started =>
-      (match st.ph with
-       | .fresh => some { st with ph := .inStarted }
-       | .afterStopped => if restartable then some { st with ph := .inStarted } else none
+      (match ph with
+       | .fresh => some .inStarted
+       | .afterStopped => if restartable then some .inStarted else none
        | _ => none)
-    | .cbEnd .started ok =>
-      if st.ph == .inStarted then some { st with ph := (if ok then .running else .failed), sawFailure := st.sawFailure || !ok }
-      else none
-    | .cbBegin (.handle _) => if st.ph == .running then some { st with ph := .inHandler } else none
-    | .cbBegin (.item _) =>
-      if st.ph == .running && c.cfg.stream then some { st with ph := .inHandler } else none
-    | .cbEnd (.handle _) _ | .cbEnd (.item _) _ =>
-      if st.ph == .inHandler then some { st with ph := .running } else none
-    | .cbBegin .finished =>
-      if st.ph == .running && c.cfg.stream then some { st with ph := .inFinished } else none
-    | .cbEnd .finished _ => if st.ph == .inFinished then some { st with ph := .afterFinished } else none
+    | .cbEnd .started ok => if ph == .inStarted then some (if ok then .running else .failed) else none
+    | .cbBegin (.handle _) => if ph == .running then some .inHandler else none
+    | .cbBegin (.item _) => if ph == .running && c.cfg.stream then some .inHandler else none
+    | .cbEnd (.handle _) _ | .cbEnd (.item _) _ => if ph == .inHandler then some .running else none
+    | .cbBegin .finished => if ph == .running && c.cfg.stream then some .inFinished else none
+    | .cbEnd .finished _ => if ph == .inFinished then some .afterFinished else none
     | .cbBegin .stopped =>
-      (match st.ph with
-       | .running => if c.cfg.stream then none else some { st with ph := .inStopped }
-       | .afterFinished => some { st with ph := .inStopped }
+      (match ph with
+       | .running => if c.cfg.stream then none else some .inStopped
+       | .afterFinished => some .inStopped
        | _ => none)
-    | .cbEnd .stopped _ => if st.ph == .inStopped then some { st with ph := .afterStopped } else none
+    | .cbEnd .stopped _ => if ph == .inStopped then some .afterStopped else none
     | .cbAbandon _ =>
-      (match st.ph with
-       | .inHandler =>
-         if c.cfg.failOnTimeout then some { st with ph := .failed, sawFailure := true }
-         else some { st with ph := .running }
-       | .failed => some st          -- drop guard of a callback cut short by a cancellation
+      (match ph with
+       | .inHandler => if c.cfg.failOnTimeout then some .failed else some .running
+       | .failed => some .failed        -- drop guard of a callback cut short by a cancellation
        | _ => none)
-    | .cbPanic _ => some { st with ph := .failed, sawFailure := true }
-    | .cancel => some { st with ph := .failed, sawFailure := true }
-    | .taskPanic => some { st with ph := .failed, sawFailure := true }
+    | .cbPanic _ | .cancel | .taskPanic => some .failed
     | .taskDone =>
-      (match st.ph with
-       | .afterStopped => some { st with ph := .ended }
-       | .failed => some st
-       | _ => none)                  -- the loop returned without `stopped`
+      (match ph with
+       | .afterStopped => some .ended
+       | .failed => some .failed
+       | _ => none)                     -- the loop returned without `stopped`
+    | _ => some ph
+
+structure C03qSt where
+  graceful : Bool        -- a stop request was accepted
+  sawFailure : Bool
+  ended : Bool           -- the task ended after `stopped`
+  stoppedDone : Bool
+  deriving Repr, DecidableEq
+
+def monC03q (c : MonCtx) : Mon C03qSt where
+  init := { graceful := false, sawFailure := false, ended := false, stoppedDone := false }
+  step st l :=
+    match l with
     | .stopReq _ true | .ctxStop true => some { st with graceful := true }
-    | .quiescent _ =>
-      -- an accepted stop request, no failure: the actor has ended gracefully by now
-      if st.graceful && !st.sawFailure && st.ph != .ended then none else some st
-    | _ => some st
+    | .cbEnd .stopped _ => some { st with stoppedDone := true }
+    | .cbBegin _ => some { st with stoppedDone := false }
+    | .taskDone => some { st with ended := st.stoppedDone }
+    | .quiescent _ => if st.graceful && !st.sawFailure && !st.ended then none else some st
+    | l =>
+      if l.isFailure || (match l with | .cbAbandon _ => c.cfg.failOnTimeout | _ => false)
+      then some { st with sawFailure := true } else some st
 
 end Hannibal
